@@ -89,6 +89,11 @@ type z =
 | Zpos of positive
 | Zneg of positive
 
+(** val eqb : bool -> bool -> bool **)
+
+let eqb b1 b2 =
+  if b1 then b2 else if b2 then false else true
+
 module Nat =
  struct
   (** val add : nat -> nat -> nat **)
@@ -362,6 +367,24 @@ module N =
   | N0 -> XH
   | Npos p -> Pos.succ p
 
+  (** val add : n -> n -> n **)
+
+  let add n0 m =
+    match n0 with
+    | N0 -> m
+    | Npos p -> (match m with
+                 | N0 -> n0
+                 | Npos q -> Npos (Pos.add p q))
+
+  (** val mul : n -> n -> n **)
+
+  let mul n0 m =
+    match n0 with
+    | N0 -> N0
+    | Npos p -> (match m with
+                 | N0 -> N0
+                 | Npos q -> Npos (Pos.mul p q))
+
   (** val coq_lor : n -> n -> n **)
 
   let coq_lor n0 m =
@@ -388,6 +411,12 @@ module N =
     | Npos p -> (match m with
                  | N0 -> n0
                  | Npos q -> Pos.ldiff p q)
+
+  (** val to_nat : n -> nat **)
+
+  let to_nat = function
+  | N0 -> O
+  | Npos p -> Pos.to_nat p
  end
 
 module Z =
@@ -764,6 +793,12 @@ let rec filter f = function
 | [] -> []
 | x :: l0 -> if f x then x :: (filter f l0) else filter f l0
 
+(** val find : ('a1 -> bool) -> 'a1 list -> 'a1 option **)
+
+let rec find f = function
+| [] -> None
+| x :: tl0 -> if f x then Some x else find f tl0
+
 (** val combine : 'a1 list -> 'a2 list -> ('a1 * 'a2) list **)
 
 let rec combine l l' =
@@ -797,6 +832,71 @@ let rec skipn n0 l =
 let rec seq start = function
 | O -> []
 | S len0 -> start :: (seq (S start) len0)
+
+type ascii =
+| Ascii of bool * bool * bool * bool * bool * bool * bool * bool
+
+(** val eqb0 : ascii -> ascii -> bool **)
+
+let eqb0 a b =
+  let Ascii (a0, a1, a2, a3, a4, a5, a6, a7) = a in
+  let Ascii (b0, b1, b2, b3, b4, b5, b6, b7) = b in
+  if if if if if if if eqb a0 b0 then eqb a1 b1 else false
+                 then eqb a2 b2
+                 else false
+              then eqb a3 b3
+              else false
+           then eqb a4 b4
+           else false
+        then eqb a5 b5
+        else false
+     then eqb a6 b6
+     else false
+  then eqb a7 b7
+  else false
+
+(** val n_of_digits : bool list -> n **)
+
+let rec n_of_digits = function
+| [] -> N0
+| b :: l' ->
+  N.add (if b then Npos XH else N0) (N.mul (Npos (XO XH)) (n_of_digits l'))
+
+(** val n_of_ascii : ascii -> n **)
+
+let n_of_ascii = function
+| Ascii (a0, a1, a2, a3, a4, a5, a6, a7) ->
+  n_of_digits
+    (a0 :: (a1 :: (a2 :: (a3 :: (a4 :: (a5 :: (a6 :: (a7 :: []))))))))
+
+(** val nat_of_ascii : ascii -> nat **)
+
+let nat_of_ascii a =
+  N.to_nat (n_of_ascii a)
+
+type string =
+| EmptyString
+| String of ascii * string
+
+(** val eqb1 : string -> string -> bool **)
+
+let rec eqb1 s1 s2 =
+  match s1 with
+  | EmptyString ->
+    (match s2 with
+     | EmptyString -> true
+     | String (_, _) -> false)
+  | String (c1, s1') ->
+    (match s2 with
+     | EmptyString -> false
+     | String (c2, s2') -> if eqb0 c1 c2 then eqb1 s1' s2' else false)
+
+(** val append : string -> string -> string **)
+
+let rec append s1 s2 =
+  match s1 with
+  | EmptyString -> s2
+  | String (c, s1') -> String (c, (append s1' s2))
 
 (** val neg_one : z -> z **)
 
@@ -944,12 +1044,12 @@ let try_into_i16 w c =
   then Some s
   else None
 
-(** val append : positive -> positive -> positive **)
+(** val append0 : positive -> positive -> positive **)
 
-let rec append i j =
+let rec append0 i j =
   match i with
-  | XI ii -> XI (append ii j)
-  | XO ii -> XO (append ii j)
+  | XI ii -> XI (append0 ii j)
+  | XO ii -> XO (append0 ii j)
   | XH -> j
 
 module PositiveMap =
@@ -999,10 +1099,11 @@ module PositiveMap =
     | Node (l, o, r) ->
       (match o with
        | Some x ->
-         app (xelements l (append i (XO XH))) ((i,
-           x) :: (xelements r (append i (XI XH))))
+         app (xelements l (append0 i (XO XH))) ((i,
+           x) :: (xelements r (append0 i (XI XH))))
        | None ->
-         app (xelements l (append i (XO XH))) (xelements r (append i (XI XH))))
+         app (xelements l (append0 i (XO XH)))
+           (xelements r (append0 i (XI XH))))
 
   (** val elements : 'a1 t -> (key * 'a1) list **)
 
@@ -3593,3 +3694,710 @@ let bc_wf_why num_regs fuse p =
                             else Zpos (XI (XO XH))
                           | None -> Zpos (XO (XI (XO (XO (XI XH))))))
                   | None -> Zpos (XO (XO (XO (XI (XO XH))))))
+
+type kind =
+| KPrintIr
+| KPrintBc
+| KPrintBc2
+| KInplace
+| KIrInt
+| KBcInt
+| KPrintMc
+| KBaseJit
+
+type action =
+| ASetKind of kind
+| ASetOpt of z
+| ASetBits of z
+| AHelp
+| ANextFile
+| ANextLimit
+| AStatic
+| ATime
+
+type table = (string * action) list
+
+(** val spec_table : table **)
+
+let spec_table =
+  ((String ((Ascii (true, false, true, true, false, true, false, false)),
+    (String ((Ascii (true, false, true, true, false, true, false, false)),
+    (String ((Ascii (false, false, false, false, true, true, true, false)),
+    (String ((Ascii (false, true, false, false, true, true, true, false)),
+    (String ((Ascii (true, false, false, true, false, true, true, false)),
+    (String ((Ascii (false, true, true, true, false, true, true, false)),
+    (String ((Ascii (false, false, true, false, true, true, true, false)),
+    (String ((Ascii (true, false, true, true, false, true, false, false)),
+    (String ((Ascii (true, false, false, true, false, true, true, false)),
+    (String ((Ascii (false, true, false, false, true, true, true, false)),
+    EmptyString)))))))))))))))))))), (ASetKind KPrintIr)) :: (((String
+    ((Ascii (true, false, true, true, false, true, false, false)), (String
+    ((Ascii (true, false, true, true, false, true, false, false)), (String
+    ((Ascii (false, false, false, false, true, true, true, false)), (String
+    ((Ascii (false, true, false, false, true, true, true, false)), (String
+    ((Ascii (true, false, false, true, false, true, true, false)), (String
+    ((Ascii (false, true, true, true, false, true, true, false)), (String
+    ((Ascii (false, false, true, false, true, true, true, false)), (String
+    ((Ascii (true, false, true, true, false, true, false, false)), (String
+    ((Ascii (false, true, false, false, false, true, true, false)), (String
+    ((Ascii (true, true, false, false, false, true, true, false)),
+    EmptyString)))))))))))))))))))), (ASetKind KPrintBc)) :: (((String
+    ((Ascii (true, false, true, true, false, true, false, false)), (String
+    ((Ascii (true, false, true, true, false, true, false, false)), (String
+    ((Ascii (false, false, false, false, true, true, true, false)), (String
+    ((Ascii (false, true, false, false, true, true, true, false)), (String
+    ((Ascii (true, false, false, true, false, true, true, false)), (String
+    ((Ascii (false, true, true, true, false, true, true, false)), (String
+    ((Ascii (false, false, true, false, true, true, true, false)), (String
+    ((Ascii (true, false, true, true, false, true, false, false)), (String
+    ((Ascii (false, true, false, true, false, true, true, false)), (String
+    ((Ascii (true, false, false, true, false, true, true, false)), (String
+    ((Ascii (false, false, true, false, true, true, true, false)), (String
+    ((Ascii (true, false, true, true, false, true, false, false)), (String
+    ((Ascii (false, true, false, false, false, true, true, false)), (String
+    ((Ascii (true, true, false, false, false, true, true, false)),
+    EmptyString)))))))))))))))))))))))))))), (ASetKind
+    KPrintBc2)) :: (((String ((Ascii (true, false, true, true, false, true,
+    false, false)), (String ((Ascii (true, false, true, true, false, true,
+    false, false)), (String ((Ascii (true, false, false, true, false, true,
+    true, false)), (String ((Ascii (false, true, true, true, false, true,
+    true, false)), (String ((Ascii (false, false, false, false, true, true,
+    true, false)), (String ((Ascii (false, false, true, true, false, true,
+    true, false)), (String ((Ascii (true, false, false, false, false, true,
+    true, false)), (String ((Ascii (true, true, false, false, false, true,
+    true, false)), (String ((Ascii (true, false, true, false, false, true,
+    true, false)), EmptyString)))))))))))))))))), (ASetKind
+    KInplace)) :: (((String ((Ascii (true, false, true, true, false, true,
+    false, false)), (String ((Ascii (true, false, true, true, false, true,
+    false, false)), (String ((Ascii (true, false, false, true, false, true,
+    true, false)), (String ((Ascii (false, true, false, false, true, true,
+    true, false)), (String ((Ascii (true, false, true, true, false, true,
+    false, false)), (String ((Ascii (true, false, false, true, false, true,
+    true, false)), (String ((Ascii (false, true, true, true, false, true,
+    true, false)), (String ((Ascii (false, false, true, false, true, true,
+    true, false)), EmptyString)))))))))))))))), (ASetKind
+    KIrInt)) :: (((String ((Ascii (true, false, true, true, false, true,
+    false, false)), (String ((Ascii (true, false, true, true, false, true,
+    false, false)), (String ((Ascii (false, true, false, false, false, true,
+    true, false)), (String ((Ascii (true, true, false, false, false, true,
+    true, false)), (String ((Ascii (true, false, true, true, false, true,
+    false, false)), (String ((Ascii (true, false, false, true, false, true,
+    true, false)), (String ((Ascii (false, true, true, true, false, true,
+    true, false)), (String ((Ascii (false, false, true, false, true, true,
+    true, false)), EmptyString)))))))))))))))), (ASetKind
+    KBcInt)) :: (((String ((Ascii (true, false, true, true, false, true,
+    false, false)), (String ((Ascii (true, false, true, true, false, true,
+    false, false)), (String ((Ascii (false, false, false, false, true, true,
+    true, false)), (String ((Ascii (false, true, false, false, true, true,
+    true, false)), (String ((Ascii (true, false, false, true, false, true,
+    true, false)), (String ((Ascii (false, true, true, true, false, true,
+    true, false)), (String ((Ascii (false, false, true, false, true, true,
+    true, false)), (String ((Ascii (true, false, true, true, false, true,
+    false, false)), (String ((Ascii (false, true, false, true, false, true,
+    true, false)), (String ((Ascii (true, false, false, true, false, true,
+    true, false)), (String ((Ascii (false, false, true, false, true, true,
+    true, false)), (String ((Ascii (true, false, true, true, false, true,
+    false, false)), (String ((Ascii (true, false, true, true, false, true,
+    true, false)), (String ((Ascii (true, true, false, false, false, true,
+    true, false)), EmptyString)))))))))))))))))))))))))))), (ASetKind
+    KPrintMc)) :: (((String ((Ascii (true, false, true, true, false, true,
+    false, false)), (String ((Ascii (true, false, true, true, false, true,
+    false, false)), (String ((Ascii (false, true, false, false, false, true,
+    true, false)), (String ((Ascii (true, false, false, false, false, true,
+    true, false)), (String ((Ascii (true, true, false, false, true, true,
+    true, false)), (String ((Ascii (true, false, true, false, false, true,
+    true, false)), (String ((Ascii (true, false, true, true, false, true,
+    false, false)), (String ((Ascii (false, true, false, true, false, true,
+    true, false)), (String ((Ascii (true, false, false, true, false, true,
+    true, false)), (String ((Ascii (false, false, true, false, true, true,
+    true, false)), EmptyString)))))))))))))))))))), (ASetKind
+    KBaseJit)) :: (((String ((Ascii (true, false, true, true, false, true,
+    false, false)), (String ((Ascii (true, true, true, true, false, false,
+    true, false)), (String ((Ascii (false, false, false, false, true, true,
+    false, false)), EmptyString)))))), (ASetOpt Z0)) :: (((String ((Ascii
+    (true, false, true, true, false, true, false, false)), (String ((Ascii
+    (true, true, true, true, false, false, true, false)), (String ((Ascii
+    (true, false, false, false, true, true, false, false)),
+    EmptyString)))))), (ASetOpt (Zpos XH))) :: (((String ((Ascii (true,
+    false, true, true, false, true, false, false)), (String ((Ascii (true,
+    true, true, true, false, false, true, false)), (String ((Ascii (false,
+    true, false, false, true, true, false, false)), EmptyString)))))),
+    (ASetOpt (Zpos (XO XH)))) :: (((String ((Ascii (true, false, true, true,
+    false, true, false, false)), (String ((Ascii (true, true, true, true,
+    false, false, true, false)), (String ((Ascii (true, true, false, false,
+    true, true, false, false)), EmptyString)))))), (ASetOpt (Zpos (XI
+    XH)))) :: (((String ((Ascii (true, false, true, true, false, true, false,
+    false)), (String ((Ascii (true, true, true, true, false, false, true,
+    false)), (String ((Ascii (false, false, true, false, true, true, false,
+    false)), EmptyString)))))), (ASetOpt (Zpos (XO (XO XH))))) :: (((String
+    ((Ascii (true, false, true, true, false, true, false, false)), (String
+    ((Ascii (true, true, true, true, false, false, true, false)), (String
+    ((Ascii (true, false, true, false, true, true, false, false)),
+    EmptyString)))))), (ASetOpt (Zpos (XI (XO XH))))) :: (((String ((Ascii
+    (true, false, true, true, false, true, false, false)), (String ((Ascii
+    (true, false, false, true, false, true, true, false)), (String ((Ascii
+    (false, false, false, true, true, true, false, false)),
+    EmptyString)))))), (ASetBits (Zpos (XO (XO (XO XH)))))) :: (((String
+    ((Ascii (true, false, true, true, false, true, false, false)), (String
+    ((Ascii (true, false, false, true, false, true, true, false)), (String
+    ((Ascii (true, false, false, false, true, true, false, false)), (String
+    ((Ascii (false, true, true, false, true, true, false, false)),
+    EmptyString)))))))), (ASetBits (Zpos (XO (XO (XO (XO
+    XH))))))) :: (((String ((Ascii (true, false, true, true, false, true,
+    false, false)), (String ((Ascii (true, false, false, true, false, true,
+    true, false)), (String ((Ascii (true, true, false, false, true, true,
+    false, false)), (String ((Ascii (false, true, false, false, true, true,
+    false, false)), EmptyString)))))))), (ASetBits (Zpos (XO (XO (XO (XO (XO
+    XH)))))))) :: (((String ((Ascii (true, false, true, true, false, true,
+    false, false)), (String ((Ascii (true, false, false, true, false, true,
+    true, false)), (String ((Ascii (false, true, true, false, true, true,
+    false, false)), (String ((Ascii (false, false, true, false, true, true,
+    false, false)), EmptyString)))))))), (ASetBits (Zpos (XO (XO (XO (XO (XO
+    (XO XH))))))))) :: (((String ((Ascii (true, false, true, true, false,
+    true, false, false)), (String ((Ascii (false, false, false, true, false,
+    true, true, false)), EmptyString)))), AHelp) :: (((String ((Ascii (true,
+    false, true, true, false, true, false, false)), (String ((Ascii (false,
+    false, false, true, false, true, true, false)), (String ((Ascii (true,
+    false, true, false, false, true, true, false)), (String ((Ascii (false,
+    false, true, true, false, true, true, false)), (String ((Ascii (false,
+    false, false, false, true, true, true, false)), EmptyString)))))))))),
+    AHelp) :: (((String ((Ascii (true, false, true, true, false, true, false,
+    false)), (String ((Ascii (true, false, true, true, false, true, false,
+    false)), (String ((Ascii (false, false, false, true, false, true, true,
+    false)), (String ((Ascii (true, false, true, false, false, true, true,
+    false)), (String ((Ascii (false, false, true, true, false, true, true,
+    false)), (String ((Ascii (false, false, false, false, true, true, true,
+    false)), EmptyString)))))))))))), AHelp) :: (((String ((Ascii (true,
+    false, true, true, false, true, false, false)), (String ((Ascii (false,
+    true, true, false, false, true, true, false)), EmptyString)))),
+    ANextFile) :: (((String ((Ascii (true, false, true, true, false, true,
+    false, false)), (String ((Ascii (false, true, true, false, false, true,
+    true, false)), (String ((Ascii (true, false, false, true, false, true,
+    true, false)), (String ((Ascii (false, false, true, true, false, true,
+    true, false)), (String ((Ascii (true, false, true, false, false, true,
+    true, false)), EmptyString)))))))))), ANextFile) :: (((String ((Ascii
+    (true, false, true, true, false, true, false, false)), (String ((Ascii
+    (true, false, true, true, false, true, false, false)), (String ((Ascii
+    (false, true, true, false, false, true, true, false)), (String ((Ascii
+    (true, false, false, true, false, true, true, false)), (String ((Ascii
+    (false, false, true, true, false, true, true, false)), (String ((Ascii
+    (true, false, true, false, false, true, true, false)),
+    EmptyString)))))))))))), ANextFile) :: (((String ((Ascii (true, false,
+    true, true, false, true, false, false)), (String ((Ascii (true, false,
+    true, true, false, true, false, false)), (String ((Ascii (false, false,
+    true, true, false, true, true, false)), (String ((Ascii (true, false,
+    false, true, false, true, true, false)), (String ((Ascii (true, false,
+    true, true, false, true, true, false)), (String ((Ascii (true, false,
+    false, true, false, true, true, false)), (String ((Ascii (false, false,
+    true, false, true, true, true, false)), EmptyString)))))))))))))),
+    ANextLimit) :: (((String ((Ascii (true, false, true, true, false, true,
+    false, false)), (String ((Ascii (true, false, true, true, false, true,
+    false, false)), (String ((Ascii (true, true, false, false, true, true,
+    true, false)), (String ((Ascii (false, false, true, false, true, true,
+    true, false)), (String ((Ascii (true, false, false, false, false, true,
+    true, false)), (String ((Ascii (false, false, true, false, true, true,
+    true, false)), (String ((Ascii (true, false, false, true, false, true,
+    true, false)), (String ((Ascii (true, true, false, false, false, true,
+    true, false)), EmptyString)))))))))))))))), AStatic) :: (((String ((Ascii
+    (true, false, true, true, false, true, false, false)), (String ((Ascii
+    (true, false, true, true, false, true, false, false)), (String ((Ascii
+    (false, false, true, false, true, true, true, false)), (String ((Ascii
+    (true, false, false, true, false, true, true, false)), (String ((Ascii
+    (true, false, true, true, false, true, true, false)), (String ((Ascii
+    (true, false, true, false, false, true, true, false)),
+    EmptyString)))))))))))), ATime) :: []))))))))))))))))))))))))))
+
+type defaults = { d_bits : z; d_opt : z; d_kind : kind }
+
+(** val spec_defaults : defaults **)
+
+let spec_defaults =
+  { d_bits = (Zpos (XO (XO (XO XH)))); d_opt = (Zpos (XO XH)); d_kind =
+    KBaseJit }
+
+(** val spec_widths : (z * z) list **)
+
+let spec_widths =
+  ((Zpos (XO (XO (XO XH)))), (Zpos (XO (XO (XO XH))))) :: (((Zpos (XO (XO (XO
+    (XO XH))))), (Zpos (XO (XO (XO (XO XH)))))) :: (((Zpos (XO (XO (XO (XO
+    (XO XH)))))), (Zpos (XO (XO (XO (XO (XO XH))))))) :: (((Zpos (XO (XO (XO
+    (XO (XO (XO XH))))))), (Zpos (XO (XO (XO (XO (XO (XO XH)))))))) :: [])))
+
+(** val lookup : table -> string -> action option **)
+
+let rec lookup t0 a =
+  match t0 with
+  | [] -> None
+  | p :: r -> let (k, v) = p in if eqb1 k a then Some v else lookup r a
+
+(** val digit_of : ascii -> z option **)
+
+let digit_of c =
+  let n0 = Z.of_nat (nat_of_ascii c) in
+  if (&&) (Z.leb (Zpos (XO (XO (XO (XO (XI XH)))))) n0)
+       (Z.leb n0 (Zpos (XI (XO (XO (XI (XI XH)))))))
+  then Some (Z.sub n0 (Zpos (XO (XO (XO (XO (XI XH)))))))
+  else None
+
+(** val parse_digits : string -> z -> z option **)
+
+let rec parse_digits s acc =
+  match s with
+  | EmptyString -> Some acc
+  | String (c, r) ->
+    (match digit_of c with
+     | Some d -> parse_digits r (Z.add (Z.mul acc (Zpos (XO (XI (XO XH))))) d)
+     | None -> None)
+
+(** val parse_usize : string -> z option **)
+
+let parse_usize s =
+  let body =
+    match s with
+    | EmptyString -> s
+    | String (a, r) ->
+      let Ascii (b, b0, b1, b2, b3, b4, b5, b6) = a in
+      if b
+      then if b0
+           then if b1
+                then s
+                else if b2
+                     then if b3
+                          then s
+                          else if b4
+                               then if b5 then s else if b6 then s else r
+                               else s
+                     else s
+           else s
+      else s
+  in
+  (match body with
+   | EmptyString -> None
+   | String (_, _) ->
+     (match parse_digits body Z0 with
+      | Some v ->
+        if Z.ltb v
+             (Z.pow (Zpos (XO XH)) (Zpos (XO (XO (XO (XO (XO (XO XH))))))))
+        then Some v
+        else None
+      | None -> None))
+
+type fileres =
+| FOk of string
+| FBadEncoding of string
+| FMissing
+
+type cstate = { c_bits : z; c_kind : kind; c_opt : z; c_limit : z option;
+                c_safe : bool; c_err : bool; c_help : bool; c_nfile : 
+                bool; c_nlimit : bool; c_time : bool; c_code : string;
+                c_diag : string list }
+
+(** val cstate0 : defaults -> cstate **)
+
+let cstate0 d =
+  { c_bits = d.d_bits; c_kind = d.d_kind; c_opt = d.d_opt; c_limit = None;
+    c_safe = true; c_err = false; c_help = false; c_nfile = false; c_nlimit =
+    false; c_time = false; c_code = EmptyString; c_diag = [] }
+
+(** val apply_action : cstate -> action -> cstate **)
+
+let apply_action s = function
+| ASetKind k ->
+  { c_bits = s.c_bits; c_kind = k; c_opt = s.c_opt; c_limit = s.c_limit;
+    c_safe = s.c_safe; c_err = s.c_err; c_help = s.c_help; c_nfile =
+    s.c_nfile; c_nlimit = s.c_nlimit; c_time = s.c_time; c_code = s.c_code;
+    c_diag = s.c_diag }
+| ASetOpt n0 ->
+  { c_bits = s.c_bits; c_kind = s.c_kind; c_opt = n0; c_limit = s.c_limit;
+    c_safe = s.c_safe; c_err = s.c_err; c_help = s.c_help; c_nfile =
+    s.c_nfile; c_nlimit = s.c_nlimit; c_time = s.c_time; c_code = s.c_code;
+    c_diag = s.c_diag }
+| ASetBits n0 ->
+  { c_bits = n0; c_kind = s.c_kind; c_opt = s.c_opt; c_limit = s.c_limit;
+    c_safe = s.c_safe; c_err = s.c_err; c_help = s.c_help; c_nfile =
+    s.c_nfile; c_nlimit = s.c_nlimit; c_time = s.c_time; c_code = s.c_code;
+    c_diag = s.c_diag }
+| AHelp ->
+  { c_bits = s.c_bits; c_kind = s.c_kind; c_opt = s.c_opt; c_limit =
+    s.c_limit; c_safe = s.c_safe; c_err = s.c_err; c_help = true; c_nfile =
+    s.c_nfile; c_nlimit = s.c_nlimit; c_time = s.c_time; c_code = s.c_code;
+    c_diag = s.c_diag }
+| ANextFile ->
+  { c_bits = s.c_bits; c_kind = s.c_kind; c_opt = s.c_opt; c_limit =
+    s.c_limit; c_safe = s.c_safe; c_err = s.c_err; c_help = s.c_help;
+    c_nfile = true; c_nlimit = s.c_nlimit; c_time = s.c_time; c_code =
+    s.c_code; c_diag = s.c_diag }
+| ANextLimit ->
+  { c_bits = s.c_bits; c_kind = s.c_kind; c_opt = s.c_opt; c_limit =
+    s.c_limit; c_safe = s.c_safe; c_err = s.c_err; c_help = s.c_help;
+    c_nfile = s.c_nfile; c_nlimit = true; c_time = s.c_time; c_code =
+    s.c_code; c_diag = s.c_diag }
+| AStatic ->
+  { c_bits = s.c_bits; c_kind = s.c_kind; c_opt = s.c_opt; c_limit =
+    s.c_limit; c_safe = false; c_err = s.c_err; c_help = s.c_help; c_nfile =
+    s.c_nfile; c_nlimit = s.c_nlimit; c_time = s.c_time; c_code = s.c_code;
+    c_diag = s.c_diag }
+| ATime ->
+  { c_bits = s.c_bits; c_kind = s.c_kind; c_opt = s.c_opt; c_limit =
+    s.c_limit; c_safe = s.c_safe; c_err = s.c_err; c_help = s.c_help;
+    c_nfile = s.c_nfile; c_nlimit = s.c_nlimit; c_time = true; c_code =
+    s.c_code; c_diag = s.c_diag }
+
+(** val with_code :
+    cstate -> string -> bool -> string list -> bool -> bool -> z option ->
+    cstate **)
+
+let with_code s code err diag nfile nlimit lim =
+  { c_bits = s.c_bits; c_kind = s.c_kind; c_opt = s.c_opt; c_limit = lim;
+    c_safe = s.c_safe; c_err = ((||) s.c_err err); c_help = s.c_help;
+    c_nfile = nfile; c_nlimit = nlimit; c_time = s.c_time; c_code = code;
+    c_diag = (app s.c_diag diag) }
+
+(** val cli_step :
+    table -> (string -> fileres) -> cstate -> string -> cstate **)
+
+let cli_step t0 fs s arg =
+  if s.c_nfile
+  then (match fs arg with
+        | FOk content ->
+          with_code s (append s.c_code content) false [] false s.c_nlimit
+            s.c_limit
+        | FBadEncoding partial ->
+          with_code s (append s.c_code partial) true
+            ((append (String ((Ascii (true, false, true, false, false, true,
+               true, false)), (String ((Ascii (false, true, true, true,
+               false, true, true, false)), (String ((Ascii (true, true,
+               false, false, false, true, true, false)), (String ((Ascii
+               (true, true, true, true, false, true, true, false)), (String
+               ((Ascii (false, false, true, false, false, true, true,
+               false)), (String ((Ascii (true, false, false, true, false,
+               true, true, false)), (String ((Ascii (false, true, true, true,
+               false, true, true, false)), (String ((Ascii (true, true, true,
+               false, false, true, true, false)), (String ((Ascii (false,
+               true, false, true, true, true, false, false)),
+               EmptyString)))))))))))))))))) arg) :: []) false s.c_nlimit
+            s.c_limit
+        | FMissing ->
+          with_code s s.c_code true
+            ((append (String ((Ascii (true, true, true, true, false, true,
+               true, false)), (String ((Ascii (false, false, false, false,
+               true, true, true, false)), (String ((Ascii (true, false, true,
+               false, false, true, true, false)), (String ((Ascii (false,
+               true, true, true, false, true, true, false)), (String ((Ascii
+               (false, true, false, true, true, true, false, false)),
+               EmptyString)))))))))) arg) :: []) false s.c_nlimit s.c_limit)
+  else if s.c_nlimit
+       then (match parse_usize arg with
+             | Some v ->
+               with_code s s.c_code false [] s.c_nfile false (Some v)
+             | None ->
+               with_code s s.c_code false
+                 ((append (String ((Ascii (false, true, false, false, false,
+                    true, true, false)), (String ((Ascii (true, false, false,
+                    false, false, true, true, false)), (String ((Ascii
+                    (false, false, true, false, false, true, true, false)),
+                    (String ((Ascii (false, false, true, true, false, true,
+                    true, false)), (String ((Ascii (true, false, false, true,
+                    false, true, true, false)), (String ((Ascii (true, false,
+                    true, true, false, true, true, false)), (String ((Ascii
+                    (true, false, false, true, false, true, true, false)),
+                    (String ((Ascii (false, false, true, false, true, true,
+                    true, false)), (String ((Ascii (false, true, false, true,
+                    true, true, false, false)), EmptyString))))))))))))))))))
+                    arg) :: []) s.c_nfile false s.c_limit)
+       else (match lookup t0 arg with
+             | Some a -> apply_action s a
+             | None ->
+               with_code s (append s.c_code arg) false [] s.c_nfile
+                 s.c_nlimit s.c_limit)
+
+(** val cli_run :
+    table -> defaults -> (string -> fileres) -> string list -> cstate **)
+
+let cli_run t0 d fs args =
+  fold_left (cli_step t0 fs) args (cstate0 d)
+
+type decision =
+| DHelp of z
+| DNothing of z
+| DRun of z * kind * z * string * z * string
+| DPanic
+
+(** val decide : (z * z) list -> cstate -> decision **)
+
+let decide widths s =
+  if s.c_help
+  then DHelp (if s.c_err then Zpos XH else Z0)
+  else if s.c_err
+       then DNothing (Zpos XH)
+       else (match find (fun p -> Z.eqb (fst p) s.c_bits) widths with
+             | Some p ->
+               let (_, w) = p in
+               (match s.c_limit with
+                | Some l ->
+                  DRun (w, s.c_kind, s.c_opt, (String ((Ascii (false, false,
+                    true, true, false, true, true, false)), (String ((Ascii
+                    (true, false, false, true, false, true, true, false)),
+                    (String ((Ascii (true, false, true, true, false, true,
+                    true, false)), (String ((Ascii (true, false, false, true,
+                    false, true, true, false)), (String ((Ascii (false,
+                    false, true, false, true, true, true, false)), (String
+                    ((Ascii (true, false, true, false, false, true, true,
+                    false)), (String ((Ascii (false, false, true, false,
+                    false, true, true, false)), EmptyString)))))))))))))), l,
+                    s.c_code)
+                | None ->
+                  DRun (w, s.c_kind, s.c_opt,
+                    (if s.c_safe
+                     then String ((Ascii (true, true, false, false, false,
+                            true, true, false)), (String ((Ascii (false,
+                            false, false, true, false, true, true, false)),
+                            (String ((Ascii (true, false, true, false, false,
+                            true, true, false)), (String ((Ascii (true, true,
+                            false, false, false, true, true, false)), (String
+                            ((Ascii (true, true, false, true, false, true,
+                            true, false)), (String ((Ascii (true, false,
+                            true, false, false, true, true, false)), (String
+                            ((Ascii (false, false, true, false, false, true,
+                            true, false)), EmptyString)))))))))))))
+                     else String ((Ascii (true, true, false, false, true,
+                            true, true, false)), (String ((Ascii (false,
+                            false, true, false, true, true, true, false)),
+                            (String ((Ascii (true, false, false, false,
+                            false, true, true, false)), (String ((Ascii
+                            (false, false, true, false, true, true, true,
+                            false)), (String ((Ascii (true, false, false,
+                            true, false, true, true, false)), (String ((Ascii
+                            (true, true, false, false, false, true, true,
+                            false)), EmptyString)))))))))))), Z0, s.c_code))
+             | None -> DPanic)
+
+(** val is_imm : loc -> bool **)
+
+let is_imm = function
+| Imm _ -> true
+| _ -> false
+
+(** val loc_eq : loc -> loc -> bool **)
+
+let loc_eq a b =
+  match a with
+  | Mem x -> (match b with
+              | Mem y -> Z.eqb x y
+              | _ -> false)
+  | MemZero x -> (match b with
+                  | MemZero y -> Z.eqb x y
+                  | _ -> false)
+  | Tmp x -> (match b with
+              | Tmp y -> Z.eqb x y
+              | _ -> false)
+  | Imm x -> (match b with
+              | Imm y -> Z.eqb x y
+              | _ -> false)
+
+(** val commute : loc -> loc -> loc -> loc * loc **)
+
+let commute d a b =
+  match a with
+  | Tmp t0 ->
+    (match b with
+     | Tmp t1 ->
+       if Z.ltb t1 t0
+       then if is_imm b
+            then if loc_eq d b then (b, a) else (a, b)
+            else if loc_eq d a then (a, b) else (b, a)
+       else if is_imm a
+            then if loc_eq d a then (a, b) else (b, a)
+            else if loc_eq d b then (b, a) else (a, b)
+     | _ ->
+       if is_imm b
+       then if loc_eq d b then (b, a) else (a, b)
+       else if loc_eq d a then (a, b) else (b, a))
+  | _ ->
+    if is_imm a
+    then if loc_eq d a then (a, b) else (b, a)
+    else if loc_eq d b then (b, a) else (a, b)
+
+(** val reorder : z -> binstr -> binstr **)
+
+let reorder w i =
+  let i1 =
+    match i with
+    | Add (d, a, b) ->
+      (match a with
+       | Imm x ->
+         (match b with
+          | Imm y -> Copy (d, (Imm (wadd w x y)))
+          | _ -> i)
+       | _ -> i)
+    | Sub (d, a, b) ->
+      (match a with
+       | Imm x ->
+         (match b with
+          | Imm y -> Copy (d, (Imm (wadd w x (wneg w y))))
+          | _ -> i)
+       | _ -> i)
+    | Mul (d, a, b) ->
+      (match a with
+       | Imm x ->
+         (match b with
+          | Imm y -> Copy (d, (Imm (wmul w x y)))
+          | _ -> i)
+       | _ -> i)
+    | _ -> i
+  in
+  let i2 =
+    match i1 with
+    | Sub (d, a, b) ->
+      (match b with
+       | Imm y -> Add (d, a, (Imm (wneg w y)))
+       | _ -> i1)
+    | _ -> i1
+  in
+  (match i2 with
+   | Add (d, a, b) -> let (a', b') = commute d a b in Add (d, a', b')
+   | Mul (d, a, b) -> let (a', b') = commute d a b in Mul (d, a', b')
+   | _ -> i2)
+
+(** val jit_covers : binstr -> bool **)
+
+let jit_covers = function
+| Scan (_, _) -> false
+| Add (d, a, b) ->
+  (match d with
+   | Mem _ ->
+     (match a with
+      | Mem _ -> (match b with
+                  | MemZero _ -> false
+                  | _ -> true)
+      | Tmp _ -> (match b with
+                  | Mem _ -> false
+                  | MemZero _ -> false
+                  | _ -> true)
+      | _ -> false)
+   | Tmp t0 ->
+     (match a with
+      | Mem _ -> (match b with
+                  | MemZero _ -> false
+                  | _ -> true)
+      | Tmp t1 ->
+        (match b with
+         | Mem _ -> Z.eqb t0 t1
+         | MemZero _ -> false
+         | _ -> true)
+      | _ -> false)
+   | _ -> false)
+| Sub (d, a, b) ->
+  (match d with
+   | Mem _ ->
+     (match a with
+      | Mem _ -> (match b with
+                  | Mem _ -> true
+                  | Tmp _ -> true
+                  | _ -> false)
+      | MemZero _ -> false
+      | Tmp _ -> (match b with
+                  | Mem _ -> true
+                  | Tmp _ -> true
+                  | _ -> false)
+      | Imm _ -> (match b with
+                  | Mem _ -> true
+                  | Tmp _ -> true
+                  | _ -> false))
+   | Tmp _ ->
+     (match a with
+      | Mem _ -> (match b with
+                  | Mem _ -> true
+                  | Tmp _ -> true
+                  | _ -> false)
+      | MemZero _ -> false
+      | Tmp _ -> (match b with
+                  | Mem _ -> true
+                  | Tmp _ -> true
+                  | _ -> false)
+      | Imm _ -> (match b with
+                  | Mem _ -> true
+                  | Tmp _ -> true
+                  | _ -> false))
+   | _ -> false)
+| Mul (d, a, b) ->
+  (match d with
+   | Mem _ ->
+     (match a with
+      | Mem _ -> (match b with
+                  | MemZero _ -> false
+                  | _ -> true)
+      | Tmp _ -> (match b with
+                  | Mem _ -> false
+                  | MemZero _ -> false
+                  | _ -> true)
+      | _ -> false)
+   | Tmp t0 ->
+     (match a with
+      | Mem _ -> (match b with
+                  | MemZero _ -> false
+                  | _ -> true)
+      | Tmp t1 ->
+        (match b with
+         | Mem _ -> Z.eqb t0 t1
+         | MemZero _ -> false
+         | _ -> true)
+      | _ -> false)
+   | _ -> false)
+| Copy (d, a) ->
+  (match d with
+   | Mem _ -> (match a with
+               | MemZero _ -> false
+               | _ -> true)
+   | Tmp _ -> (match a with
+               | MemZero _ -> false
+               | _ -> true)
+   | _ -> false)
+| _ -> true
+
+(** val dst_writable : loc -> bool **)
+
+let dst_writable = function
+| Mem _ -> true
+| Tmp _ -> true
+| _ -> false
+
+(** val int_covers : binstr -> bool **)
+
+let int_covers = function
+| Add (d, _, _) -> dst_writable d
+| Sub (d, _, _) -> dst_writable d
+| Mul (d, _, _) -> dst_writable d
+| Copy (d, _) -> dst_writable d
+| _ -> true
+
+(** val src_plain : loc -> bool **)
+
+let src_plain = function
+| MemZero _ -> false
+| _ -> true
+
+(** val pre_shape : binstr -> bool **)
+
+let pre_shape = function
+| Scan (_, _) -> false
+| Add (d, a, b) -> (&&) ((&&) (dst_writable d) (src_plain a)) (src_plain b)
+| Sub (d, a, b) -> (&&) ((&&) (dst_writable d) (src_plain a)) (src_plain b)
+| Mul (d, a, b) -> (&&) ((&&) (dst_writable d) (src_plain a)) (src_plain b)
+| Copy (d, a) -> (&&) (dst_writable d) (src_plain a)
+| _ -> true
+
+(** val unzero : loc -> loc **)
+
+let unzero l = match l with
+| MemZero k -> Mem k
+| _ -> l
+
+(** val unzero_instr : binstr -> binstr **)
+
+let unzero_instr i = match i with
+| Add (d, a, b) -> Add (d, (unzero a), (unzero b))
+| Sub (d, a, b) -> Sub (d, (unzero a), (unzero b))
+| Mul (d, a, b) -> Mul (d, (unzero a), (unzero b))
+| Copy (d, a) -> Copy (d, (unzero a))
+| _ -> i
